@@ -36,6 +36,9 @@ class EnqueueOnce(nfa.Spec):
             if ev.endswith("Err"):
                 return ("enq_failed",)
             return ("enq_ok",) if ph in ("called", "done") and (not self.waiting or ph == "done") else nfa.Err("R01.3: success of an enqueue that was not driven to completion")
+        if ev == "retval:call" and src == "enq" and (ph == "done" or (ph == "called" and not self.waiting)):
+            # the enqueue's own outcome is the closure's result (`tx.start_send(event).map_err(ActorError::from)`)
+            return ("okret",)
         if ev == "retval:Ok":
             need = "enq_ok"
             if ph != need:
@@ -368,7 +371,7 @@ def check_cfg(ctx, fx, cfg):
                         h = fx.fn(ht.get("resolved") or "") or fx.fn(ht.get("callee") or "")
                         if h is not None and (g["def"] == h["def"] or g.get("parent") == h["def"]):
                             tys = ht.get("argtys", [])
-                            ok_args = ok_args or ("&mut A" in tys and "&mut context::Context<A>" in tys)
+                            ok_args = ok_args or (("&mut A" in tys or "A" in tys) and "&mut context::Context<A>" in tys)
                     inv3 += [(x, y, z and ok_args) for x, y, z in gi]
         inv = [t for _bi, t, _ok in inv3]
         ok = len(inv3) == 1 and inv3[0][2]
